@@ -14,6 +14,9 @@ abbrev R := Int
 
 /-! ## small parsing helpers -/
 
+def parseNatList (s : String) : List Nat :=
+  ((s.splitOn ",").filter (· ≠ "")).map fun x => x.toNat?.getD 0
+
 def kv (toks : List String) (key : String) : Option String :=
   toks.findSome? fun t =>
     if t.startsWith (key ++ "=") then some ((t.drop (key.length + 1)).toString) else none
@@ -208,6 +211,28 @@ def showOutcome (w : World A R) (inst : Nat) : Outcome A R → String
     | some s => s!"exit {if f then 1 else 0} [" ++ " | ".intercalate (es.map (showErr s)) ++ "]"
     | none => s!"exit {if f then 1 else 0}"
   | .badEvent => "bad-event"
+  | .unwound log out _ =>
+    let o := match out with
+      | .ret _ => "user"
+      | .mockPanic e => match sharedOfInst w inst with
+        | some s => s!"mock-panic {showErr s e}"
+        | none => "mock-panic ?"
+      | .userPanic => "user"
+      | .outOfFuel => "out-of-fuel"
+    s!"unwound {o} log=[{showLog log}]"
+  | .consumed log out d =>
+    let o := match out with
+      | .ret v => s!"ret {v}"
+      | .mockPanic e => match sharedOfInst w inst with
+        | some s => s!"mock-panic {showErr s e}"
+        | none => "mock-panic ?"
+      | .userPanic => "user-panic"
+      | .outOfFuel => "out-of-fuel"
+    -- a verification failure at the final drop of a normally returning call replaces the return value
+    match out, d with
+    | .ret _, .ok => s!"call {o} log=[{showLog log}]"
+    | .ret _, t => s!"call teardown {showTeardown (sharedOfInst w inst) t} log=[{showLog log}]"
+    | _, _ => s!"call {o} log=[{showLog log}]"
 
 /-! ## scenario runner -/
 
@@ -234,6 +259,9 @@ def parseEvent (lines : List (List String)) : Option (Event A R × Nat × List (
     | some "verify" => some (.verify i t, i, rest)
     | some "noverify" => some (.noVerify i t, i, rest)
     | some "report" => some (.report i t, i, rest)
+    | some "unwindcall" =>
+      some (.unwindCall i t (methodInfo (kvNat toks "m")) (kvNat toks "a") (parseNatList ((kv toks "also").getD "")), i, rest)
+    | some "consume" => some (.consume i t (methodInfo 9) (kvNat toks "a"), i, rest)
     | _ => none
 
 partial def runScenario (lines : List (List String)) (st : RunState) : RunState :=
@@ -287,9 +315,6 @@ def showVerdict (s : Shared A R) : String :=
   else
     let es := verifyAll s
     if es.isEmpty then "ok" else " | ".intercalate (es.map (showErr s))
-
-def parseNatList (s : String) : List Nat :=
-  ((s.splitOn ",").filter (· ≠ "")).map fun x => x.toNat?.getD 0
 
 /-- the unfinished threads in ascending order, as the real scheduler enumerates them -/
 def picksOf (p : ParState A R) : List Nat → List Nat
